@@ -1673,7 +1673,7 @@ class Gen:
         ref = self.pick_ref(actor, root_bias=0.7)
         if ref is None or len(walk(self.w.node_at(ref))) > 25:
             return None
-        op: dict[str, Any] = {"op": "ser", "n": ref, "fmt": r.choice(self.cfg["formats"]), "opts": r.choice([None, None, "idx"]), "out": self.out()}
+        op: dict[str, Any] = {"op": "ser", "n": ref, "fmt": r.choice(self.cfg["formats"]), "opts": r.choice([None, None, "idx", "sort", "idx+sort"]), "out": self.out()}
         if self.cfg["faults"] and self.cfg["ser_faults"] and r.random() < 0.3 and any(cname(x) == "Carrier" for x in walk(self.w.node_at(ref))):
             op["fault"] = {"site": "tok_ser", "k": r.choice([1, 1, 2])}
         if self.cfg.get("threads") and r.random() < 0.5:
@@ -1778,7 +1778,19 @@ class Gen:
         if what == "xpath":
             op["xpath"] = r.choice(["//LeafA", "/Pair/@left Expr", "//@items[0]Expr", "//Seq//LeafB"])
         if what == "match":
-            op["pattern"] = r.choice(["(* @origin -> o)", "(LeafA @a=\"q\" -> v)", "(Seq @items=[(LeafA) * -> rest])", "(Pair @left=(*) -> l @right=$l)"])
+            op["pattern"] = r.choice(
+                [
+                    "(* @origin -> o)",
+                    "(LeafA @a=\"q\" -> v)",
+                    "(Seq @items=[(LeafA) * -> rest])",
+                    "(Pair @left=(*) -> l @right=$l)",
+                    # field names that are also names of (zero-argument) methods of every node: only attribute presence
+                    "(* @detach_self)",
+                    "(* @detach -> d)",
+                    "(* @duplicate @replace)",
+                    "(* @to_tree -> t @children)",
+                ]
+            )
         if what == "ser":
             op["opts"] = r.choice([None, "idx"])
         if what == "visit":
@@ -1965,6 +1977,10 @@ def make_config(rseed: int, prop: str, tier: str, faults: bool) -> dict[str, Any
         # swarm: canonically equivalent but unequal strings (NFC / NFD, compatibility signs) side by side
         strpool = strpool[:2] + r.sample(["caf\u00e9", "cafe\u0301", "\u212b", "\u00c5", "\u2126", "\u03a9", "\uac00", "\u1100\u1161"], 4)
         pools["str"] = strpool
+    if prop in ("C04", "C16") and r.random() < 0.2:
+        # swarm: strings that plain-scalar resolvers of text formats like to read as something else
+        strpool = strpool[:2] + r.sample(["1e3", "7E-2", "12e45", "0x1F", "1_000", "yes", "No", "null", "~", "1:30", "0o17", ".inf", "2001-01-01", "=", "<<", "- a", "a: b", "#c", " lead", "trail ", "'q'", '"dq"', "\\n", "multi\nline"], 5)
+        pools["str"] = strpool
     if prop in ("C01", "C03", "C14", "C10") and r.random() < 0.2:
         # swarm: ==-equal values of different types side by side (1 / 1.0 / True, 0 / 0.0 / False) in a value-rich class
         leafs += ["Vals", "Vals"]
@@ -2085,6 +2101,7 @@ def nontrivial(prop: str, w: World) -> bool:
 import base64  # noqa: E402
 
 from pyoak.origin import SOURCE_OPTIMIZED_SERIALIZATION_KEY, NoOrigin, NoPosition, NoSource, Source  # noqa: E402
+from pyoak.serialize import SerializationOption  # noqa: E402
 from pyoak.tree import Tree as PTree  # noqa: E402
 from pyoak.visitor import ASTTransformVisitor, ASTVisitor  # noqa: E402
 
@@ -2174,6 +2191,10 @@ def deserialize(cls: Any, data: Any, fmt: str, opts: dict[str, Any] | None) -> A
 def ser_opts(name: str | None) -> dict[str, Any] | None:
     if name == "idx":
         return {SOURCE_OPTIMIZED_SERIALIZATION_KEY: True}
+    if name == "sort":
+        return {SerializationOption.SORT_KEYS: True}
+    if name == "idx+sort":
+        return {SOURCE_OPTIMIZED_SERIALIZATION_KEY: True, SerializationOption.SORT_KEYS: True}
     return None
 
 
@@ -2376,7 +2397,7 @@ def op_ser(self: World, op: dict[str, Any]) -> str:
         raise Cut(f"serialize raised {type(e).__name__}: {e}") from None
     shared: dict[int, int] = {}
     snapshot = snap_tree(o, shared, [0])
-    sources = Source.all_as_dict() if op.get("opts") == "idx" else None
+    sources = Source.all_as_dict() if "idx" in (op.get("opts") or "") else None
     self.put(op["out"], "payload", data, op.get("actor", "a0"), {"fmt": fmt, "opts": op.get("opts"), "snap": snapshot, "sources": sources, "root_cls": cname(o)})
     if len(shared) < len(walk(o)):
         self.stats.probes["ser_tree_with_shared_subtree"] += 1
